@@ -31,6 +31,8 @@ pub fn fnv32(s: &str) -> u32 {
 struct Shared {
     /// transmitted frames not yet answered
     sent: VecDeque<Vec<u8>>,
+    /// frames handed to the driver whose send_blocking has not returned yet (the wire may answer early)
+    early: VecDeque<Vec<u8>>,
     /// last delivered response (for duplicates)
     last_resp: Option<Vec<u8>>,
     /// response bytes accepted ("processed"), keyed by first datagram index
@@ -178,12 +180,18 @@ pub struct RunResult {
 /// and feeds the monitors.
 fn execute(plan: &Plan, prof: &Profile, sched_rng: &mut Rng, forced: Option<&[String]>, rep: &mut Report) -> RunResult {
     crate::clock::clear();
+    let shared = Arc::new(Mutex::new(Shared::default()));
     let main = World::new(plan.n, plan.data, plan.fi, plan.pi);
     let mut worlds: Vec<World> = (0..plan.progs.len()).map(|_| main.sibling()).collect();
     let mut main = main;
     worlds[plan.tx_tid].tx = main.tx.take();
+    {
+        let sh = shared.clone();
+        worlds[plan.tx_tid].on_send = Some(Box::new(move |b: &[u8]| {
+            sh.lock().unwrap().early.push_back(b.to_vec());
+        }));
+    }
     worlds[plan.rx_tid].rx = main.rx.take();
-    let shared = Arc::new(Mutex::new(Shared::default()));
     let step_ctr = Arc::new(AtomicUsize::new(0));
     let logs: Vec<Arc<Mutex<Vec<OpLog>>>> = (0..plan.progs.len()).map(|_| Arc::new(Mutex::new(Vec::new()))).collect();
     let worlds_back: Arc<Mutex<Vec<Option<World>>>> = Arc::new(Mutex::new((0..plan.progs.len()).map(|_| None).collect()));
@@ -250,6 +258,12 @@ fn execute(plan: &Plan, prof: &Profile, sched_rng: &mut Rng, forced: Option<&[St
                         } else if pick == 7 {
                             let n = noise_rng.edgy(30) as usize;
                             format!("rx,{}", hex(&noise_rng.bytes(n)))
+                        } else if pick == 5 && !sh.early.is_empty() {
+                            // the wire answers before send_blocking has returned (loopback, fast NIC):
+                            // outside C01's "after the transmit side finished sending it"
+                            let fr = sh.early[0].clone();
+                            sh.nonce += 1;
+                            format!("rx,{}", hex(&det_response(&fr, sh.nonce)))
                         } else if let Some(fr) = sh.sent.pop_front() {
                             sh.nonce += 1;
                             let resp = det_response(&fr, sh.nonce);
@@ -305,6 +319,9 @@ fn execute(plan: &Plan, prof: &Profile, sched_rng: &mut Rng, forced: Option<&[St
                         if bytes.len() >= 18 {
                             let mut sh = shared.lock().unwrap();
                             sh.transmissions.entry(bytes[17]).or_default().push(bytes.clone());
+                            if let Some(p) = sh.early.iter().position(|e| *e == bytes) {
+                                sh.early.remove(p);
+                            }
                             if tag == "ok" {
                                 sh.sent.push_back(bytes);
                             }
@@ -385,6 +402,18 @@ fn execute(plan: &Plan, prof: &Profile, sched_rng: &mut Rng, forced: Option<&[St
                             burst_left -= 1;
                             return i;
                         }
+                    }
+                }
+                // while the RX side is in the middle of its lookup / claim (between two of its loads), now
+                // and then let the OTHER threads run for a long stretch: windows of a few instructions
+                // (stale marker + slot reuse between two loads) are otherwise practically never hit
+                if let Some(rxpos) = waiting.iter().position(|(_, site)| matches!(*site, 27 | 28 | 29)) {
+                    if waiting.len() > 1 && pick_rng.chance(1, 3) {
+                        let others: Vec<usize> = (0..waiting.len()).filter(|i| *i != rxpos).collect();
+                        let i = others[pick_rng.below(others.len() as u64) as usize];
+                        last = Some(waiting[i].0);
+                        burst_left = pick_rng.range(15, 90);
+                        return i;
                     }
                 }
                 // weights: a thread that would only spin (TX with nothing sendable, RX with nothing to
@@ -656,6 +685,11 @@ fn execute(plan: &Plan, prof: &Profile, sched_rng: &mut Rng, forced: Option<&[St
             if o.out != "processed" && sh.genuine.get(k).copied().unwrap_or(false) {
                 let idx = unhex(&o.op[3..]).get(17).copied().unwrap_or(0);
                 let abandoned = abandoned_at.get(&idx).map_or(false, |s| *s <= o.end);
+                // an earlier copy of the response (early answer, duplicate) already completed the request
+                let already = logs[plan.rx_tid][..k].iter().any(|x| x.out == "processed" && unhex(&x.op[3..]).get(17) == Some(&idx));
+                if already {
+                    continue;
+                }
                 // with deadlines in play a response may legitimately meet a slot that was re-queued for
                 // retransmission or already completed by an earlier copy: only judged without them
                 if !abandoned && !prof.timeouts && !prof.tx_fail {
